@@ -85,6 +85,19 @@ def run(ctx):
     nsh = 198
     args = [["--tier", tier, "--classes", "int", "--path", "emulate", "--shard", i, "--nshards", nsh, "--deadline", int(deadline)] for i in range(nsh)]
     res = vlib.run_shards(exe, args, env, timeout=deadline * 1.3 + 60, label="xemu")
+    # the float/double opcodes on the emulation path against the same independent reference (the value semantics of
+    # flush-to-zero arithmetic are C18's subject and are judged there on all paths; here: the emulator computes the
+    # documented function of the operands, e.g. cmplef is <= and not <)
+    resf = vlib.Results()
+    nshf = 40
+    argsf = [["--tier", tier, "--classes", "float", "--path", "emulate", "--shard", i, "--nshards", nshf, "--deadline", int(deadline)] for i in range(nshf)]
+    vlib.run_shards(exe, argsf, env, timeout=deadline * 1.3 + 60, res=resf, label="xemu-float")
+    for v in resf.viol:
+        v["key"] = v["key"].replace("C18|", "C02|float|", 1)
+        res.viol.append(v)
+    if resf.incomplete:
+        res.incomplete = True
+    float_stats = {"forms": int(resf.stats.get("forms", 0)), "elements_compared": int(resf.stats.get("elements_compared", 0))}
     # static part: live table vs documented table
     dump = vlib.build_engine("xoptab", "plain")
     live = {}
@@ -112,6 +125,7 @@ def run(ctx):
     shutil.rmtree(scratch, ignore_errors=True)
     st = res.stats
     cov = {
+        "float_opcodes_on_the_emulation_path": float_stats,
         "evaluations": int(st.get("elements_compared", 0)),
         "distinct_nontrivial": int(st.get("forms", 0)),
         "rule": "every non-float opcode of the live table x forms {x1,x2,x4} x second operand {array, constant, parameter} is emulated over "
@@ -143,7 +157,8 @@ def replay(rep):
         return 0
     exe = vlib.build_engine("xemu", "plain")
     scratch = vlib.scratch_dir("C02r")
-    p = subprocess.run([exe, "--tier", "quick", "--classes", "int", "--path", r.get("path", "emulate"), "--only", r["opcode"]],
+    cls = "float" if "|float|" in rep.get("key", "") else "int"
+    p = subprocess.run([exe, "--tier", "quick", "--classes", cls, "--path", r.get("path", "emulate"), "--only", r["opcode"]],
                        stdout=subprocess.PIPE, env=vlib.scrub_env(scratch=scratch), timeout=1200)
     shutil.rmtree(scratch, ignore_errors=True)
     bad = [l for l in p.stdout.decode().splitlines() if '"t":"viol"' in l]
